@@ -319,13 +319,25 @@ func Segment(b []byte, cuts []int) enc.Wire {
 	w := enc.Wire{}
 	prev := 0
 	for _, c := range cuts {
-		if c <= prev || c >= len(b) {
+		if c < prev || c > len(b) {
+			continue
+		}
+		if c == prev || c == len(b) {
+			// a repeated cut (or one at either end) stands for an empty buffer at that position: the
+			// repository's own encoders emit such wires (an empty content buffer between two headers)
+			if c == len(b) && prev < len(b) {
+				w = append(w, append([]byte{}, b[prev:]...))
+				prev = len(b)
+			}
+			w = append(w, []byte{})
 			continue
 		}
 		w = append(w, append([]byte{}, b[prev:c]...))
 		prev = c
 	}
-	w = append(w, append([]byte{}, b[prev:]...))
+	if prev < len(b) || len(w) == 0 {
+		w = append(w, append([]byte{}, b[prev:]...))
+	}
 	return w
 }
 
